@@ -14,7 +14,7 @@ import warnings
 import numpy as np
 from hypothesis import strategies as st
 
-from vlib.core import Outcome, Sub
+from vlib.core import Outcome, Sub, guarded
 
 PROPERTY = "C12"
 RULE = ("history: one built-in Function class (all 33 concrete classes of Function.py, composites wrap drawn inner classes) with "
@@ -34,8 +34,19 @@ RULE = ("history: one built-in Function class (all 33 concrete classes of Functi
         "right of the box; the box corners are handed over as tuple, list, float ndarray or int ndarray (drawn independently "
         "for start and end), FunctionCompose has 2-3 parts in drawn order (half of them with a discontinuous/kinked part first), "
         "FunctionShift (list- or ndarray-valued translation) wraps a leaf or such a composition; non-trivial = d>=2 with at least two different widths, or a kink strictly inside the box; "
-        "cases whose reference is not resolved are counted (class ref-unresolved) and not asserted. Distinct = distinct case dict.")
+        "cases whose reference is not resolved are counted (class ref-unresolved) and not asserted. Both subs: the first function "
+        "with number containers gets them in a drawn container form in half of the cases and the caller modifies them in place "
+        "after the construction in a quarter (see assumptions). Distinct = distinct case dict.")
 ASSUMPTIONS = [
+    "constructor arguments (coefficients, midpoints/borders, means/std, norms) are handed over as list, tuple, float64 ndarray, "
+    "non-contiguous ndarray view or int ndarray (integer-valued only; integer-valued coefficients also as Python ints) in half of "
+    "the cases; in a quarter the caller modifies ITS containers in place right after the construction (before any evaluation, "
+    "so that no cached value predates the change).  Required then: the object is ONE function - for every modified container "
+    "either the values at construction (unchanged tree: FunctionLinear/Multilinear/Polynomial, GenzCornerPeak copy; GenzProductPeak "
+    "copies lists) or the current values (GenzOszillatory/Discontinious/C0/Gaussian, FunctionGeneralizedNormal, FunctionPolysPCE "
+    "norms, GenzProductPeak ndarrays keep a reference), the same choice for point evaluation (all paths), cache and analytic "
+    "integral; observed per family in the class counters '<class>.<argument>[<form>]:copy|reference'.  The library must not "
+    "modify the caller's containers.  FunctionUQNormal(2) mean/std: forms only (they define where the inner object is evaluated)",
     "evaluation counter (get_f_dict_size) is asserted only while caching is on; it counts points passed to __call__ "
     "(direct eval/eval_vectorized calls bypass the cache by construction and are not counted); for an object wrapped by "
     "another one the points the wrapper evaluates it at count as well (wrappers that use inner.eval instead of inner(...): "
@@ -134,8 +145,15 @@ def build(spec, nodes=None):
     object shared by two wrappers, e.g. FunctionConcatenate([h, FunctionPower(h, 2)]))."""
     if nodes is None:
         nodes = []
-    me = dict(spec=spec, inst=None, kids=[])
+    me = dict(spec=spec, inst=None, kids=[], containers={})
     nodes.append(me)
+    forms = spec.get("forms", {})
+
+    def P(name, default="list"):
+        """the constructor argument ``name`` in the container form drawn for this case; the harness keeps the container"""
+        cont = _container(spec[name], forms.get(name, default))
+        me["containers"][name] = [cont, list(spec[name])]
+        return cont
 
     def sub(s):
         if s["cls"] == "same":
@@ -144,8 +162,87 @@ def build(spec, nodes=None):
             return nodes[j]["inst"]
         me["kids"].append(len(nodes))
         return build(s, nodes)
-    me["inst"] = _construct(spec, sub)
+    me["inst"] = _construct(spec, sub, P)
+    # the caller goes on using ITS containers: scaled / overwritten in place right after the construction
+    for name, how in sorted(spec.get("mutate", {}).items()):
+        cont, expected = me["containers"][name]
+        if not isinstance(cont, tuple):
+            new = _mutated_values(expected, how)
+            for k in range(len(cont)):
+                cont[k] = new[k]
+            me["containers"][name][1] = new
     return me["inst"]
+
+
+def _container(values, form):
+    """list / tuple / float64 ndarray / non-contiguous view into a larger ndarray / int ndarray (integer-valued only)"""
+    if form == "tuple":
+        return tuple(values)
+    if form == "iarray" and all(float(v).is_integer() for v in values):
+        return np.array([int(v) for v in values], dtype=int)
+    if form == "view":
+        big = np.full(2 * len(values) + 1, np.nan)
+        view = big[1::2]
+        view[:] = values
+        return view
+    if form in ("farray", "iarray"):
+        return np.array(values, dtype=float)
+    return list(values)
+
+
+def _mutated_values(values, how):
+    kind, x = how
+    return [v * x for v in values] if kind == "scale" else [v + x for v in values]
+
+
+# constructor arguments that are containers of numbers, per class
+PARAMS = {"FunctionLinear": ["coeffs"], "FunctionMultilinear": ["coeffs"], "GenzCornerPeak": ["coeffs"], "FunctionPolynomial": ["coeffs"],
+          "GenzProductPeak": ["coeffs", "midpoint"], "GenzOszillatory": ["coeffs"], "GenzDiscontinious": ["coeffs", "border"],
+          "GenzDiscontinious2": ["coeffs", "border"], "GenzC0": ["coeffs", "midpoint"], "GenzGaussian": ["midpoint", "coeffs"],
+          "FunctionGeneralizedNormal": ["midpoint", "coeffs"], "Polynomial1d": ["coeffs"], "FunctionUQNormal": ["mean", "std"],
+          "FunctionUQNormal2": ["mean", "std"], "FunctionPolysPCE": ["norms"]}
+
+
+def _children(spec):
+    c = spec["cls"]
+    if c in ("FunctionCompose",):
+        return [p[0] for p in spec["parts"]]
+    if c == "FunctionConcatenate":
+        return list(spec["parts"])
+    return [spec[k] for k in ("inner", "weight") if k in spec]
+
+
+def variants(spec):
+    """Plain specs (list arguments, no caller modification) of the functions the object may consistently be: for every
+    container the caller modified after the construction either the values at construction (the library took a copy) or
+    the current values (the library kept a reference).  Without a caller modification: the one plain spec."""
+    import copy
+    import itertools as it
+    base = copy.deepcopy(spec)
+    targets = []
+
+    def walk(s):
+        s.pop("forms", None)
+        mut = s.pop("mutate", None)
+        if mut:
+            for name, how in sorted(mut.items()):
+                targets.append((s, name, list(s[name]), _mutated_values(s[name], how)))
+        for ch in _children(s):
+            walk(ch)
+    walk(base)
+
+    def floats(s):       # the reference functions get float parameters (integer-valued ones are a form of passing them)
+        for name in PARAMS.get(s["cls"], []):
+            s[name] = [float(v) for v in s[name]]
+        for ch in _children(s):
+            floats(ch)
+    out = []
+    for choice in it.product((0, 1), repeat=len(targets)):
+        for (s, name, old, new), pick in zip(targets, choice):
+            s[name] = new if pick else old
+        floats(base)
+        out.append(copy.deepcopy(base))
+    return out
 
 
 def build_graph(spec):
@@ -154,7 +251,7 @@ def build_graph(spec):
     return nodes
 
 
-def _construct(spec, build):
+def _construct(spec, build, P):
     import sparseSpACE.Function as F
     c = spec["cls"]
     if c == "ConstantValue":
@@ -162,27 +259,27 @@ def _construct(spec, build):
     if c in ("FunctionDiagonalDiscont", "FunctionExpVar", "FunctionUQ", "FunctionUQShifted", "FunctionUQ2"):
         return getattr(F, c)()
     if c in ("FunctionLinear", "FunctionMultilinear", "GenzCornerPeak"):
-        return getattr(F, c)(list(spec["coeffs"]))
+        return getattr(F, c)(P("coeffs"))
     if c == "FunctionPolynomial":
-        return F.FunctionPolynomial(list(spec["coeffs"]), spec["degree"])
+        return F.FunctionPolynomial(P("coeffs"), spec["degree"])
     if c == "GenzProductPeak":
-        return F.GenzProductPeak(list(spec["coeffs"]), list(spec["midpoint"]))
+        return F.GenzProductPeak(P("coeffs"), P("midpoint"))
     if c == "GenzOszillatory":
-        return F.GenzOszillatory(list(spec["coeffs"]), spec["offset"])
+        return F.GenzOszillatory(P("coeffs"), spec["offset"])
     if c in ("GenzDiscontinious", "GenzDiscontinious2"):
-        return getattr(F, c)(coeffs=list(spec["coeffs"]), border=list(spec["border"]))
+        return getattr(F, c)(coeffs=P("coeffs"), border=P("border"))
     if c == "GenzC0":
-        return F.GenzC0(coeffs=list(spec["coeffs"]), midpoint=list(spec["midpoint"]))
+        return F.GenzC0(coeffs=P("coeffs"), midpoint=P("midpoint"))
     if c == "GenzGaussian":
-        return F.GenzGaussian(tuple(spec["midpoint"]), tuple(spec["coeffs"]))
+        return F.GenzGaussian(P("midpoint", "tuple"), P("coeffs", "tuple"))
     if c == "FunctionGeneralizedNormal":
-        return F.FunctionGeneralizedNormal(list(spec["midpoint"]), list(spec["coeffs"]), spec["exp"])
+        return F.FunctionGeneralizedNormal(P("midpoint"), P("coeffs"), spec["exp"])
     if c in ("FunctionG", "FunctionGShifted"):
         return getattr(F, c)(spec["d"])
     if c == "FunctionCantileverBeamD":
         return F.FunctionCantileverBeamD(spec["width"], spec["thickness"])
     if c == "Polynomial1d":
-        return F.Polynomial1d(list(spec["coeffs"]))
+        return F.Polynomial1d(P("coeffs"))
     if c == "LambdaFunction":
         fn, anti = LAMBDA_1D[spec["fn"]]
         return F.LambdaFunction(fn, anti)
@@ -205,7 +302,7 @@ def _construct(spec, build):
             return F.FunctionShift(build(spec["inner"]), lambda x, tarr=tarr: np.asarray(x, dtype=float) + tarr)
         return F.FunctionShift(build(spec["inner"]), lambda x, t=t: [x[k] + t[k] for k in range(len(t))])
     if c in ("FunctionUQNormal", "FunctionUQNormal2"):
-        return getattr(F, c)(build(spec["inner"]), list(spec["mean"]), list(spec["std"]), list(spec["a"]), list(spec["b"]))
+        return getattr(F, c)(build(spec["inner"]), P("mean"), P("std"), list(spec["a"]), list(spec["b"]))
     if c == "FunctionUQWeighted":
         return F.FunctionUQWeighted(build(spec["inner"]), build(spec["weight"]))
     if c == "FunctionCompose":
@@ -213,7 +310,7 @@ def _construct(spec, build):
     if c == "FunctionPower":
         return F.FunctionPower(build(spec["inner"]), spec["exponent"])
     if c == "FunctionPolysPCE":
-        return F.FunctionPolysPCE(build(spec["inner"]), [POLY_FN[n] for n in spec["polys"]], list(spec["norms"]))
+        return F.FunctionPolysPCE(build(spec["inner"]), [POLY_FN[n] for n in spec["polys"]], P("norms"))
     if c == "FunctionInverseTransform":
         import scipy.stats
         dists = [getattr(scipy.stats, kind)(loc=loc, scale=scale) for kind, loc, scale in spec["dists"]]
@@ -403,9 +500,124 @@ def _map_point(spec, p):
     return tuple(p)
 
 
+def _check_containers(out, sub, nodes):
+    """the library must never modify the caller's parameter containers (expected = values after the caller's own change)"""
+    for nd in nodes:
+        for name, (cont, expected) in sorted(nd.get("containers", {}).items()):
+            now = [float(v) for v in cont]
+            if len(now) != len(expected) or any(a != float(b) for a, b in zip(now, expected)):
+                out.bad("%s/parameters-modified-by-library/%s-%s" % (sub, nd["spec"]["cls"], name),
+                        "%s: the caller's container for %r was changed by the library: %s -> %s" % (nd["spec"]["cls"], name, expected, now))
+
+
+def _decorated(spec):
+    """the spec node (if any) whose constructor arguments are passed in drawn container forms"""
+    if spec.get("forms"):
+        return spec
+    for ch in _children(spec):
+        r = _decorated(ch)
+        if r is not None:
+            return r
+    return None
+
+
+def _form_classes(out, spec, ncand, alive):
+    node = _decorated(spec)
+    if node is None:
+        return
+    for name, form in sorted(node["forms"].items()):
+        out.cls("argument-form=" + form)
+    if node.get("mutate"):
+        out.cls("caller-modified-its-parameters")
+        if ncand > 1 and len(alive) == 1:
+            # which of the two consistent behaviours the unchanged tree shows for this family (copy / reference)
+            bits = [(alive[0] >> k) & 1 for k in range(len(node["mutate"]))][::-1]
+            tuples = [isinstance(_container(node[nm], node["forms"].get(nm, "list")), tuple) for nm in sorted(node["mutate"])]
+            for (nm, bit, tup) in zip(sorted(node["mutate"]), bits, tuples):
+                if not tup:
+                    out.cls("%s.%s[%s]:%s" % (node["cls"], nm, node["forms"].get(nm, "list"), "reference" if bit else "copy"))
+
+
+def _strip(spec, keep_forms):
+    import copy
+    s = copy.deepcopy(spec)
+
+    def walk(x):
+        x.pop("mutate", None)
+        if not keep_forms:
+            x.pop("forms", None)
+        for ch in _children(x):
+            walk(ch)
+    walk(s)
+    return s
+
+
+def _attribute(case, out, rerun):
+    """cause of a violation in a case with drawn argument forms: the same case is re-run without the caller's modification and
+    with plain list arguments; a signature that disappears gets the suffix of what made it appear"""
+    node = _decorated(case["spec"])
+    if not out.violations or node is None:
+        return out
+    no_mut = set(sig for sig, _ in rerun(dict(case, spec=_strip(case["spec"], True))).violations) if node.get("mutate") else None
+    plain = set(sig for sig, _ in rerun(dict(case, spec=_strip(case["spec"], False))).violations)
+    forms = "+".join(sorted(set(f for f in node["forms"].values() if f != "list"))) or "list"
+
+    def responsible_form(sig):
+        """the single argument whose container form alone reproduces the violation (else all non-list forms of the case)"""
+        import copy
+        for name, form in sorted(node["forms"].items()):
+            if form == "list":
+                continue
+            sp = _strip(case["spec"], True)
+            _decorated(sp)["forms"] = {name: form}
+            if sig in set(x for x, _ in rerun(dict(case, spec=sp)).violations):
+                return form
+        return forms
+    res = []
+    for sig, msg in out.violations:
+        if sig in plain:
+            res.append((sig, msg))
+        elif no_mut is not None and sig not in no_mut:
+            res.append((sig + "/after-caller-modified-its-parameters", msg + " | forms %s, caller modification %s" % (node["forms"], node["mutate"])))
+        else:
+            res.append((sig + "/argument-form=" + responsible_form(sig), msg + " | forms %s" % node["forms"]))
+    out.violations = res
+    return out
+
+
+def _raising_class(exc):
+    """class of the Function object in whose method (innermost frame inside Function.py) the exception was raised"""
+    tb, cls = exc.__traceback__, None
+    while tb is not None:
+        fr = tb.tb_frame
+        if fr.f_code.co_filename.replace("\\", "/").endswith("sparseSpACE/Function.py") and "self" in fr.f_locals:
+            cls = type(fr.f_locals["self"]).__name__
+        tb = tb.tb_next
+    return cls
+
+
+def _history_classified(case, factory):
+    try:
+        return _run_history(case, factory)
+    except ValueError as e:
+        if not _int_power(e):
+            raise
+        out = Outcome()
+        out.cls(case["spec"]["cls"], "integer-typed-parameters")
+        out.bad(SUB_H + "/integer-arguments/%s-evaluation-raises-integers-to-negative-integer-powers" % _raising_class(e),
+                "%s; spec %s" % (e, case["spec"]))
+        return out
+
+
 def run_history(case, factory=build_graph):
     with np.errstate(all="ignore"):      # overflow to inf inside a test function is a value like any other here
-        return _run_history(case, factory)
+        out = _history_classified(case, factory)
+
+        def rerun(c):
+            o = Outcome()
+            r = guarded(SUB_H, o, _history_classified, c, factory)
+            return r if r is not None else o
+        return _attribute(case, out, rerun)
 
 
 def _run_history(case, factory):
@@ -426,25 +638,34 @@ def _run_history(case, factory):
             if node_pts[k] is None:
                 node_pts[k] = [_map_point(nd["spec"], p) for p in node_pts[i]]
     ols = [nd["inst"].output_length() for nd in nodes]
-    # reference: eval on the corresponding object of a fresh graph per object and point (no cache involved anywhere)
-    refs = []
-    for i in range(N):
-        refs.append([])
-        for p in node_pts[i]:
-            r = _as_vec(build_graph(spec)[i]["inst"].eval(p))
-            if len(r) != ols[i]:
-                out.bad("%s/output-length/%s-eval-returns-%d-values-but-declares-%d" % (SUB_H, names[i], len(r), ols[i]),
-                        "%s: eval%s returns %d values, output_length() is %d: no call path can return (n, output_length)"
-                        % (names[i], p, len(r), ols[i]))
-                return out
-            refs[i].append(r)
-    # absolute floor of the comparison: GenzOszillatory (cos near a zero) and wrappers that combine cached inner values
-    # (a value cached by the vectorised path may differ by an ulp from the scalar one): 1e-12 * largest value underneath
-    below = [[1.0 if names[i] == "GenzOszillatory" else 0.0 for _ in range(npts)] for i in range(N)]
-    for i in reversed(range(N)):
-        for k in nodes[i]["kids"]:
-            for j in range(npts):
-                below[i][j] = max(below[i][j], below[k][j], float(np.max(np.abs(refs[k][j]))) if np.all(np.isfinite(refs[k][j])) else 0.0)
+    # reference: eval on the corresponding object of a fresh graph per object and point (no cache involved anywhere); one
+    # reference set per function the object may consistently be (see variants(): more than one only after the caller has
+    # modified its own parameter containers); every observation prunes the candidates, none left = inconsistent object
+    cands = variants(spec)
+    refs_c, below_c = [], []
+    for cand in cands:
+        refs = []
+        for i in range(N):
+            refs.append([])
+            for p in node_pts[i]:
+                r = _as_vec(build_graph(cand)[i]["inst"].eval(p))
+                if len(r) != ols[i]:
+                    out.bad("%s/output-length/%s-eval-returns-%d-values-but-declares-%d" % (SUB_H, names[i], len(r), ols[i]),
+                            "%s: eval%s returns %d values, output_length() is %d: no call path can return (n, output_length)"
+                            % (names[i], p, len(r), ols[i]))
+                    return out
+                refs[i].append(r)
+        # absolute floor of the comparison: GenzOszillatory (cos near a zero) and wrappers that combine cached inner values
+        # (a value cached by the vectorised path may differ by an ulp from the scalar one): 1e-12 * largest value underneath
+        below = [[1.0 if names[i] == "GenzOszillatory" else 0.0 for _ in range(npts)] for i in range(N)]
+        for i in reversed(range(N)):
+            for k in nodes[i]["kids"]:
+                for j in range(npts):
+                    below[i][j] = max(below[i][j], below[k][j], float(np.max(np.abs(refs[k][j]))) if np.all(np.isfinite(refs[k][j])) else 0.0)
+        refs_c.append(refs)
+        below_c.append(below)
+    alive = list(range(len(cands)))
+    refs = refs_c[0]
     state = dict(maxdev=0.0)
 
     def differs(got, want, floor):
@@ -458,6 +679,13 @@ def _run_history(case, factory):
             if r.size:
                 state["maxdev"] = max(state["maxdev"], float(np.max(r)))
         return not np.all(ok)
+
+    def mismatch(got, sel):
+        """True if the observed values agree with no candidate that explained all earlier observations"""
+        ok = [c for c in alive if not differs(got, *sel(c))]
+        if ok:
+            alive[:] = ok
+        return not ok
 
     if not all(np.all(np.isfinite(r)) for rr in refs for r in rr):
         out.cls("non-finite-value")
@@ -499,7 +727,7 @@ def _run_history(case, factory):
             seen[i].add(p)
 
     def do_single(i, j, form, tag, recheck=False, mutate=False):
-        f, p, want = nodes[i]["inst"], node_pts[i][j], refs[i][j]
+        f, p, want = nodes[i]["inst"], node_pts[i][j], refs_c[alive[0]][i][j]
         arg = p if form == "t" else (list(p) if form == "l" else np.array(p))
         was_cached = caching[i] and p in seen[i]
         got = f(arg)
@@ -507,7 +735,7 @@ def _run_history(case, factory):
             out.bad(SUB_H + "/arguments-mutated/single", "%s: the point passed in was modified: %s -> %s" % (tag, p, list(arg)))
         if np.shape(got) != (ols[i],):
             out.bad(SUB_H + "/shape/single", "%s: shape %s, expected (%d,)" % (tag, np.shape(got), ols[i]))
-        elif differs(np.asarray(got, float), want, below[i][j]):
+        elif mismatch(np.asarray(got, float), lambda c: (refs_c[c][i][j], below_c[c][i][j])):
             kind = ("recheck-" if recheck else "single-") + ("cached" if was_cached else ("fresh" if caching[i] else "uncached"))
             out.bad(SUB_H + "/value/" + cause(i, [p], kind, got), "%s: %s%s=%s, fresh eval=%s"
                     % (tag, names[i], p, np.asarray(got).tolist(), want.tolist()))
@@ -563,9 +791,9 @@ def _run_history(case, factory):
                 out.bad(SUB_H + "/shape/batch%s" % ("-empty" if not plist else ""),
                         "%s: shape %s, expected (%d, %d)" % (tag, np.shape(got), len(plist), ol))
             elif plist:
-                want = np.array([refs[i][j] for j in idx])
-                floor = np.array([[below[i][j]] for j in idx])
-                if differs(np.asarray(got, float), want, floor):
+                want = np.array([refs_c[alive[0]][i][j] for j in idx])
+                if mismatch(np.asarray(got, float), lambda c: (np.array([refs_c[c][i][j] for j in idx]),
+                                                               np.array([[below_c[c][i][j]] for j in idx]))):
                     out.bad(SUB_H + "/value/" + cause(i, plist, "batch", got), "%s: got %s, fresh eval %s" % (tag, np.asarray(got).tolist(), want.tolist()))
             if not plist:
                 out.cls("empty-batch")
@@ -580,8 +808,7 @@ def _run_history(case, factory):
             else:
                 idx = np.array([[j % npts for j in row] for row in op[1]], dtype=int)
             arr = np.array(pts, dtype=float).reshape(npts, d)[idx]
-            want = np.array(refs[i])[idx]
-            floor = np.array(below[i])[idx][..., None]
+            want = np.array(refs_c[alive[0]][i])[idx]
             snapshot = arr.copy()
             got = np.asarray(f.eval_vectorized(arr))
             if arr.shape != snapshot.shape or not np.array_equal(arr, snapshot):
@@ -591,7 +818,7 @@ def _run_history(case, factory):
                         % (tag, got.size, arr.shape, ol))
             else:
                 got = got.reshape(want.shape)       # what the callers in GridOperation do
-                if differs(got.astype(float), want, floor):
+                if mismatch(got.astype(float), lambda c: (np.array(refs_c[c][i])[idx], np.array(below_c[c][i])[idx][..., None])):
                     out.bad(SUB_H + "/value/" + cause(i, [pts[j] for j in idx.ravel()], kind, got), "%s: eval_vectorized %s, fresh eval %s" % (tag, got.tolist(), want.tolist()))
             for j in idx.ravel():
                 model_eval(i, int(j))
@@ -627,6 +854,8 @@ def _run_history(case, factory):
             counters("after the re-check following")
         if out.violations:
             break
+    _check_containers(out, SUB_H, nodes)
+    _form_classes(out, spec, len(cands), alive)
     out.nontrivial = hit_batch >= 1 and evals_after_reset >= 1
     if hit_batch:
         out.cls("batch-with-seen-point")
@@ -669,7 +898,34 @@ def _part_names(spec):
     return c
 
 
-def run_integral(case, factory=build, sub=SUB_I, rel_tol=1e-9):
+def _int_power(exc):
+    return isinstance(exc, ValueError) and "Integers to negative integer powers" in str(exc)
+
+
+def _integral_classified(case, factory, sub, rel_tol):
+    try:
+        return _run_integral(case, factory, sub, rel_tol)
+    except ValueError as e:
+        if not _int_power(e):
+            raise
+        out = Outcome()
+        out.cls(case["spec"]["cls"], "integer-typed-parameters")
+        out.bad(sub + "/integer-arguments/%s-evaluation-raises-integers-to-negative-integer-powers" % _raising_class(e),
+                "%s; spec %s" % (e, case["spec"]))
+        return out
+
+
+def run_integral(case, factory=None, sub=SUB_I, rel_tol=1e-9):
+    out = _integral_classified(case, factory, sub, rel_tol)
+
+    def rerun(c):
+        o = Outcome()
+        r = guarded(sub, o, _integral_classified, c, factory, sub, rel_tol)
+        return r if r is not None else o
+    return _attribute(case, out, rerun)
+
+
+def _run_integral(case, factory, sub, rel_tol):
     out = Outcome()
     spec, a, b = case["spec"], [float(x) for x in case["a"]], [float(x) for x in case["b"]]
     cname, d = spec["cls"], spec["d"]
@@ -678,58 +934,98 @@ def run_integral(case, factory=build, sub=SUB_I, rel_tol=1e-9):
         leaves = sorted(set(_part_names(spec).replace("(", "+").replace(")", "").split("+")) - {"FunctionShift", "FunctionCompose"})
         label = cname + "(" + "+".join((["FunctionCompose"] if cname == "FunctionShift" and spec["inner"]["cls"] == "FunctionCompose" else []) + leaves) + ")"
     out.cls(cname, "d=%d" % d)
-    f = factory(spec)
+    nodes = build_graph(spec) if factory is None else []
+    f = nodes[0]["inst"] if factory is None else factory(spec)
     # a, b are the snapshot of the box: everything below (reference, kinks) uses them, never the objects handed to the library
     arg_a, arg_b = _box_container(a, case.get("a_form", "list")), _box_container(b, case.get("b_form", "list"))
     out.cls("box=%s/%s" % (_form_name(arg_a), _form_name(arg_b)))
     with warnings.catch_warnings():
         warnings.simplefilter("ignore")
-        ana = f.getAnalyticSolutionIntegral(arg_a, arg_b)
+        try:
+            ana = f.getAnalyticSolutionIntegral(arg_a, arg_b)
+        except ValueError as e:
+            if not _int_power(e):
+                raise
+            out.bad(sub + "/integer-arguments/%s-integral-raises-integers-to-negative-integer-powers" % cname,
+                    "%s.getAnalyticSolutionIntegral(%r, %r): %s; spec %s" % (cname, arg_a, arg_b, e, spec))
+            return out
     for name, arg, snap in (("start", arg_a, a), ("end", arg_b, b)):
         if [float(x) for x in arg] != snap:
             out.bad(sub + "/arguments-mutated/" + cname, "%s.getAnalyticSolutionIntegral modified its %s argument (%s): %s -> %s"
                     % (label, name, _form_name(arg), snap, [float(x) for x in arg]))
+    _check_containers(out, sub, nodes)
     if ana is None:
         out.bad(sub + "/returns-none/" + cname, "%s.getAnalyticSolutionIntegral(%s,%s) returned None" % (cname, a, b))
         return out
     ana = _as_vec(ana)
-    fresh = build(spec)
-    if cname == "FunctionDiagonalDiscont":
-        N = {1: 1, 2: 64, 3: 64, 4: 20}[d]
-        ref = np.array([jump_reference(fresh.eval, d, N)])
-        scale = np.ones(1)
-        tol = np.array([1e-12 if d <= 2 else 1.0 / N ** 2])   # midpoint rule on the Lipschitz-1 kink function: <= h^2
-        n = N
-    else:
-        # FunctionG*: a product of piecewise linear factors -> 5 (and 1) nodes per piece are exact
-        ref, scale, spread, n = reference_integral(fresh.eval, a, b, breaks(spec, a, b),
-                                                   n=5 if cname in ("FunctionG", "FunctionGShifted") else None,
-                                                   absf=abs_eval(fresh))
-        if np.any(spread > 1e-11 * scale + 1e-300):
-            out.cls("ref-unresolved", "ref-unresolved:" + label)
-            out.info = dict(max_unresolved_spread=float(np.max(spread / np.maximum(scale, 1e-300))))
+    # the functions the object may consistently be (more than one only after the caller modified its parameter containers);
+    # the object's own point evaluation decides which of them it is, the analytic integral must belong to the same one
+    cands = variants(spec)
+    alive = list(range(len(cands)))
+    if cname != "FunctionDiagonalDiscont":       # (the unit-cube jump function has no parameters and no meaningful probe)
+        probes = [tuple(a[k] + t * (b[k] - a[k]) for k in range(d)) for t in (0.5, 0.3125, 0.8125)]
+        with np.errstate(all="ignore"):
+            obs = [_as_vec(f.eval(p)) for p in probes]
+            keep = []
+            for c in alive:
+                fc = build(cands[c])
+                want = [_as_vec(fc.eval(p)) for p in probes]
+                if all(o.shape == w.shape and np.all((o == w) | (np.abs(o - w) <= 1e-12 * np.abs(w) + 1e-12)) for o, w in zip(obs, want)):
+                    keep.append(c)
+        alive = keep
+        if not alive:
+            out.bad(sub + "/eval-matches-no-parameter-set/" + label,
+                    "%s: eval at %s = %s agrees neither with the parameters at construction nor with the caller's current ones; spec %s"
+                    % (cname, probes[0], obs[0].tolist(), spec))
             return out
-        tol = rel_tol * scale + 1e-15
-    if ana.shape != ref.shape and ana.size != 1:
-        out.bad(sub + "/shape/" + cname, "analytic integral has %d components, eval has %d" % (ana.size, ref.size))
+    _form_classes(out, spec, len(cands), alive)
+    first = None
+    for c in alive:
+        cand = cands[c]
+        fresh = build(cand)
+        if cname == "FunctionDiagonalDiscont":
+            n = {1: 1, 2: 64, 3: 64, 4: 20}[d]
+            ref = np.array([jump_reference(fresh.eval, d, n)])
+            scale = np.ones(1)
+            tol = np.array([1e-12 if d <= 2 else 1.0 / n ** 2])   # midpoint rule on the Lipschitz-1 kink function: <= h^2
+        else:
+            # FunctionG*: a product of piecewise linear factors -> 5 (and 1) nodes per piece are exact
+            ref, scale, spread, n = reference_integral(fresh.eval, a, b, breaks(cand, a, b),
+                                                       n=5 if cname in ("FunctionG", "FunctionGShifted") else None,
+                                                       absf=abs_eval(fresh))
+            if np.any(spread > 1e-11 * scale + 1e-300):
+                out.info = dict(max_unresolved_spread=float(np.max(spread / np.maximum(scale, 1e-300))))
+                continue
+            tol = rel_tol * scale + 1e-15
+        if ana.shape != ref.shape and ana.size != 1:
+            out.bad(sub + "/shape/" + cname, "analytic integral has %d components, eval has %d" % (ana.size, ref.size))
+            return out
+        dev = np.abs(ana - ref)
+        ok = not (np.any(dev > tol) or not np.all(np.isfinite(ana)))
+        if first is None or ok:
+            first = (cand, ref, scale, n, dev, ok)
+        if ok:
+            break
+    if first is None:
+        out.cls("ref-unresolved", "ref-unresolved:" + label)
         return out
-    dev = np.abs(ana - ref)
-    if np.any(dev > tol) or not np.all(np.isfinite(ana)):
+    cand, ref, scale, n, dev, ok = first
+    if not ok:
         cause = label
         # cause-based refinements for deviations already understood (observed value equals a specific wrong formula)
         if cname == "FunctionMultilinear":
-            wrong = sum(spec["coeffs"][k] * (b[k] ** 2 / 2 - a[k] ** 2 / 2) for k in range(d))
+            wrong = sum(cand["coeffs"][k] * (b[k] ** 2 / 2 - a[k] ** 2 / 2) for k in range(d))
             if abs(ana[0] - wrong) <= 1e-12 * max(1.0, abs(wrong)):
                 cause = "FunctionMultilinear-sum-without-volume-of-other-dimensions"
-        if cname == "GenzOszillatory" and all(c == 0 for c in spec["coeffs"]) and ana[0] == 0.0:
+        if cname == "GenzOszillatory" and all(c == 0 for c in cand["coeffs"]) and ana[0] == 0.0:
             cause = "GenzOszillatory-all-coefficients-zero-returns-0"
         out.bad(sub + "/mismatch/" + cause, "%s over [%s,%s]: analytic %s, Gauss(%d) reference %s, int|f| %s; spec %s"
                 % (cname, a, b, ana.tolist(), n, ref.tolist(), scale.tolist(), spec))
     if cname == "GenzOszillatory" and 0 < sum(1 for c in spec["coeffs"] if c == 0) < d:
         out.cls("oszillatory-some-zero-coefficients")
     widths = set(round(b[k] - a[k], 12) for k in range(d))
-    out.nontrivial = (d >= 2 and len(widths) >= 2) or _has_inner_kink(spec, a, b)
-    if _has_inner_kink(spec, a, b):
+    out.nontrivial = (d >= 2 and len(widths) >= 2) or _has_inner_kink(cand, a, b)
+    if _has_inner_kink(cand, a, b):
         out.cls("kink-inside-box")
     out.info = dict(max_dim=d)
     if not out.violations:      # deviation of the cases that hold: shows the margin between rounding and the tolerance
@@ -739,7 +1035,7 @@ def run_integral(case, factory=build, sub=SUB_I, rel_tol=1e-9):
     return out
 
 
-def run_integral_generic(case, factory=build):
+def run_integral_generic(case, factory=None):
     return run_integral(case, factory, sub=SUB_G, rel_tol=5e-6)
 
 
@@ -812,7 +1108,11 @@ def draw_leaf(draw, cls, d, a, b, for_integral=False, parts=1):
             s["exp"] = draw(st.sampled_from([1, 2, 3]))
             if s["exp"] == 2:      # exp(+(sum c (x-m)^2)^2) grows: keep the exponent small enough not to overflow
                 s["coeffs"] = [c / (8.0 * d) for c in s["coeffs"]]
-    elif cls == "FunctionCantileverBeamD":
+    if cls in ("GenzCornerPeak", "GenzProductPeak", "GenzC0", "GenzDiscontinious", "GenzGaussian", "GenzOszillatory") \
+            and draw(st.integers(0, 5)) == 0:
+        # integer-valued coefficients, passed as Python ints (GenzCornerPeak(coeffs=[1, 2])): a parameter choice like any other
+        s["coeffs"] = [draw(st.sampled_from([1, 2, 1, 3])) for _ in range(d)]
+    if cls == "FunctionCantileverBeamD":
         s["width"] = draw(st.sampled_from([20.0, 4.0, 1.5]))
         s["thickness"] = draw(st.sampled_from([2.0, 1.0, 0.5]))
     elif cls == "Polynomial1d":
@@ -905,12 +1205,48 @@ def draw_history_spec(draw):
     return s, a, b
 
 
+def draw_forms(draw, spec):
+    """In half of the cases the first function (pre-order) that takes containers of numbers gets them in drawn forms (list,
+    tuple, float64 ndarray, non-contiguous ndarray view, int ndarray where integer-valued); in half of those the caller
+    modifies its containers in place right after the construction (coefficient-like: scaled; location-like: shifted)."""
+    def first(s):
+        if s["cls"] in PARAMS:
+            return s
+        for ch in _children(s):
+            r = first(ch)
+            if r is not None:
+                return r
+        return None
+    node = first(spec)
+    if node is None or not draw(st.booleans()):
+        return spec
+    node["forms"] = {}
+    for name in PARAMS[node["cls"]]:
+        integral = all(float(v).is_integer() for v in node[name])
+        node["forms"][name] = draw(st.sampled_from(["list", "tuple", "farray", "farray", "view"] + (["iarray", "iarray"] if integral else [])))
+    if node["cls"] in ("FunctionUQNormal", "FunctionUQNormal2") or not draw(st.booleans()):
+        return spec        # (the points at which FunctionUQNormal evaluates its inner function depend on mean/std: forms only)
+    names = [n for n in PARAMS[node["cls"]] if node["forms"][n] != "tuple"]
+    if not names:
+        return spec
+    chosen = [n for n in names if draw(st.booleans())] or [names[0]]
+    node["mutate"] = {}
+    for name in chosen:
+        ints = node["forms"][name] == "iarray"
+        if name in ("coeffs", "norms", "std"):
+            node["mutate"][name] = ["scale", 2.0 if ints else draw(st.sampled_from([2.0, 0.5]))]
+        else:
+            node["mutate"][name] = ["add", 1.0 if ints else 0.125]
+    return spec
+
+
 def history_strategy(tier):
     maxops = 18 if tier == "quick" else 25
 
     @st.composite
     def s(draw):
         spec, lo, hi = draw_history_spec(draw)
+        spec = draw_forms(draw, spec)
         d = spec["d"]
         special = [[v for v in ks if lo[k] <= v <= hi[k]] for k, ks in enumerate(kinks(spec, centres=True))]
         npts = draw(st.integers(1, 8))
@@ -1018,7 +1354,7 @@ def integral_strategy(tier):
             t = [draw(st.sampled_from([0.0, 0.25, -0.5, 1.0])) for _ in range(d)]
             spec = dict(cls=cls, d=d, inner=spec, t=t, shift_form=draw(st.sampled_from(["list", "array"])))
             a, b = [a[k] - t[k] for k in range(d)], [b[k] - t[k] for k in range(d)]
-        return dict(spec=spec, a=a, b=b, a_form=draw(forms), b_form=draw(forms))
+        return dict(spec=draw_forms(draw, spec), a=a, b=b, a_form=draw(forms), b_form=draw(forms))
     return s()
 
 
@@ -1070,6 +1406,15 @@ def history_fixed():
             dict(cls="FunctionPower", d=2, exponent=2, inner=dict(cls="same", tag="h", d=2))]), points=pts,
              ops=[["single", 0, "t", 0, 1], ["single", 0, "t", 0, 0], ["reset", 0], ["single", 0, "t", 0, 0], ["batch", [0, 1], "t", 4],
                   ["single", 1, "t", 0, 0], ["vec2", [0, 1, 2], 0]]),
+        # the caller's coefficient array scaled in place after the construction; integer-typed coefficients
+        dict(spec=dict(cls="GenzCornerPeak", d=2, coeffs=[1.0, 0.5], forms=dict(coeffs="farray"), mutate=dict(coeffs=["scale", 2.0])),
+             points=pts, ops=[["single", 0, "t", 0, 0], ["batch", [0, 1, 2], "t", 0], ["vec2", [0, 1], 0], ["reset", 0], ["single", 1, "t", 0, 0]]),
+        dict(spec=dict(cls="GenzC0", d=2, coeffs=[1.0, 2.0], midpoint=[0.5, 0.5], forms=dict(coeffs="view", midpoint="list"),
+                       mutate=dict(coeffs=["scale", 0.5], midpoint=["add", 0.125])),
+             points=pts, ops=[["single", 0, "t", 0, 0], ["batch", [0, 1, 2], "t", 0], ["vec3", [[0, 1]], 0]]),
+        dict(spec=dict(cls="GenzProductPeak", d=2, coeffs=[1, 2], midpoint=[0.5, 0.5]), points=pts, ops=[["single", 0, "t", 0, 0]]),
+        dict(spec=dict(cls="GenzCornerPeak", d=2, coeffs=[1, 2], forms=dict(coeffs="iarray")), points=pts,
+             ops=[["single", 0, "t", 0, 0], ["batch", [0, 1, 2], "t", 0]]),
         # a plain non-trivial history
         dict(spec=lin, points=pts, ops=[["single", 0, "t"], ["batch", [0, 1, 1], "t"], ["reset"], ["batch", [2, 0], "t"],
                                         ["single", 2, "t"], ["vec2", [0, 1, 2]], ["vec3", [[0, 1], [2, 2]]]]),
@@ -1092,6 +1437,19 @@ def integral_fixed():
         for form in ("list", "array"):
             cases.append(dict(spec=dict(cls="FunctionShift", d=2, inner=comp, t=[0.25, -0.5], shift_form=form),
                               a=[-0.25, 0.5], b=[0.75, 1.5], a_form=af, b_form=bf))
+    # constructor arguments as the caller's own containers, modified in place after the construction (a family of functions
+    # built from one scratch array): the object must stay ONE function (that of the old or that of the new parameters)
+    for form in ("list", "farray", "view", "tuple"):
+        for cls, extra in (("GenzCornerPeak", {}), ("FunctionLinear", {}), ("GenzOszillatory", dict(offset=0.25)),
+                           ("GenzDiscontinious", dict(border=[0.5, 2.0])), ("GenzProductPeak", dict(midpoint=[0.25, 0.5]))):
+            cases.append(dict(spec=dict(dict(cls=cls, d=2, coeffs=[1.0, 0.5], forms=dict(coeffs=form),
+                                             mutate=dict(coeffs=["scale", 2.0])), **extra),
+                              a=[0.0, 0.0], b=[1.0, 1.5], a_form="list", b_form="tuple"))
+    cases.append(dict(spec=dict(cls="Polynomial1d", d=1, coeffs=[1, 0, 0, 2], forms=dict(coeffs="list"), mutate=dict(coeffs=["scale", 2.0])),
+                      a=[0.0], b=[0.5]))
+    # integer-typed coefficients and an integer-typed box
+    cases.append(dict(spec=dict(cls="GenzCornerPeak", d=2, coeffs=[1, 2]), a=[0.0, 0.0], b=[1.0, 1.0], a_form="iarray", b_form="iarray"))
+    cases.append(dict(spec=dict(cls="GenzProductPeak", d=2, coeffs=[1, 2], midpoint=[0.5, 0.5]), a=[0.0, 0.0], b=[1.0, 1.0]))
     for d in (1, 2, 3, 4):
         for cls in UNIT_BOX_ONLY:
             cases.append(dict(spec=dict(cls=cls, d=d), a=[0.0] * d, b=[1.0] * d))
